@@ -73,7 +73,7 @@ def run(fa, fb, k, extra_files=(), hold=2.0):
     finally:
         sys.settrace(None)
     for t in tb:
-        t.join(hold)
+        t.join(30.0)                 # (it only had to wait for A if it needed something A held; a loaded machine is not a verdict)
     fired = bool(tb)
     if not fired:
         rb["r"] = outcome(fb)
